@@ -39,7 +39,8 @@ def localRank (n : Nat) : Pc → Nat
   | .abort => 11
   | .readList => 10
   | .sloop => 9
-  | .done | .fail _ | .crash | .stuck => 0
+  | .blocked _ => 1
+  | .done | .fail _ | .crash | .stuck | .hung _ | .tee => 0
 
 def measure (C : List Feature) (c : Conf) : Nat :=
   (50 + C.length) * (scriptSize c.script + pend c.pc) + c.picks.length + localRank C.length c.pc
